@@ -117,12 +117,26 @@ def match_finding(ctx, case):
     return None
 
 
+def refuted_now_note(ctx):
+    """Which `check_iff_contract_<f>_refuted` dichotomies are refutations on THIS tree (Props/C18.v `refuted_now`)."""
+    import re
+    core.TMP.mkdir(parents=True, exist_ok=True)
+    f = core.TMP / "RefutedNow.v"
+    f.write_text("From Coq Require Import String List.\nFrom TE Require Import Props.C18.\nOpen Scope string_scope.\nEval vm_compute in C18.refuted_now.\n")
+    r = core.sh(f"timeout 120 coqc -Q {core.COQ} TE {f}", cwd=core.TMP, timeout=150)
+    pairs = re.findall(r'\("([^"]+)",\s*(true|false)\)', r.stdout)
+    if pairs:
+        ctx.notes.append("check-level non-equivalences on this tree: " + ", ".join(n for n, b in pairs if b == "true")
+                         + " | repaired (equivalence proved instead): " + (", ".join(n for n, b in pairs if b == "false") or "none"))
+
+
 def run(ctx):
     rec = SL.Recorder()
     rec.install()
     meta = rec.meta
     ctx.oblige("tie:translation:all-check-functions-translated", all(m["translated"] for m in meta.values()),
                detail=", ".join(n for n, m in meta.items() if not m["translated"]))
+    refuted_now_note(ctx)
     rows = SL.base_calls()
     s = ctx.stream("shape-perturbation (functional + class update) vs Coq contracts")
     s.exhaustive = True
